@@ -694,7 +694,7 @@ class Engine:
         # a helper that did not exist when the rules were written (not in the frozen inventory) and that is loop-free and small is
         # evaluated in place, whatever the rule's own inlining policy: `extract helper` refactors must not hide code from the rules
         if callee_item.kind in ("Fn", "AssocFn") and callee_item.crate in ("rln", "zerokit_utils") and callee_item.path.split("@")[0] not in known_functions() \
-                and self.count_returns(callee_item) <= INLINE_SWITCHES + (4 if self.has_loops(callee_item) else 0):
+                and self.count_returns(callee_item) <= INLINE_SWITCHES + 6:
             # (a new helper that contains a loop - a function split in two - is evaluated in place as well: its loop is entered once,
             # like a loop of the caller)
             return True
@@ -787,7 +787,10 @@ class Engine:
                 if p.kind != "return":
                     p2 = Path(p.kind, None, p.trace, p.store, _frame, loop=p.loop, site=p.site)
                     if p.kind == "backedge":
-                        return  # loops inside inlined callees are not summarised at the caller
+                        # the body of a loop inside an inlined callee (only helpers that are not in the frozen inventory are inlined
+                        # with their loops): handed to the caller's rules as a loop body of its own, in the callee's frame
+                        (cont or out.append)(Path("backedge", None, p.trace, p.store, p.frame, loop=p.loop, site=p.site))
+                        return
                     (cont or out.append)(p2)
                     return
                 st3 = p.store
